@@ -554,6 +554,8 @@ class Body:
         if cs.name.endswith('from_residual') and args and args[0][0] == 'aggr' and args[0][1] == 'adt' and \
                 args[0][2].endswith(('Result::Err', 'Option::None')):
             return args[0]  # `Err(e)?` returns Err(From::from(e)); the conversion is value-preserving for provenance
+        if args and re.search(r'(option::Option|result::Result)::<.*>::(unwrap|expect)$', cs.name):
+            return mk_try(args[0])   # the value of x.unwrap() is the payload `x?` names (the panic is a C14 site)
         if cs.kind == 'indirect':
             return ('call', '<indirect>', (self.op_expr(cs.fnptr, seen),) + args, cs.site)
         return ('call', cs.name, args, cs.site)
@@ -663,6 +665,25 @@ class Body:
                 elif kind == 'enum':
                     if labels:
                         ps = peel(subj, calls=False)
+                        # slice.get(i) is Some exactly when i < len; slice.get(..n) when n <= len; split_first() when 0 < len
+                        if ps[0] == 'call' and tuple(labels) in (('None',), ('Some',)) and ps[2] and \
+                                ((_SLICE_GET.search(ps[1]) and len(ps[2]) == 2) or _SPLIT_FIRST.search(ps[1])):
+                            ln = ('call', _LEN_NAME, (ps[2][0],), None)
+                            some = tuple(labels) == ('Some',)
+                            if _SPLIT_FIRST.search(ps[1]):
+                                rel = ('bin', 'Lt', ('int', 0, 'usize'), ln) if some else ('bin', 'Le', ln, ('int', 0, 'usize'))
+                            elif _is_range_expr(ps[2][1]):
+                                rg = peel(ps[2][1], calls=False)
+                                f = dict(rg[3])
+                                if rg[2].endswith('RangeTo::RangeTo') and 'end' in f:
+                                    rel = ('bin', 'Le', f['end'], ln) if some else ('bin', 'Lt', ln, f['end'])
+                                else:
+                                    rel = None
+                            else:
+                                rel = ('bin', 'Lt', ps[2][1], ln) if some else ('bin', 'Le', ln, ps[2][1])
+                            if rel is not None:
+                                out[(bb, tgt)].append(('cond', rel, True))
+                                continue
                         # a.checked_sub(b) is None exactly when a < b (unsigned)
                         if ps[0] == 'call' and re.search(r'num::<impl u\d+>::checked_sub$|num::<impl usize>::checked_sub$', ps[1]) and len(ps[2]) == 2 and tuple(labels) in (('None',), ('Some',)):
                             if tuple(labels) == ('None',):
@@ -1094,8 +1115,24 @@ def norm_enum_subject(e):
     return e, conv
 
 
+_SLICE_GET = re.compile(r'slice::<impl \[T\]>::get$|Vec::<.*>::get$')
+_SPLIT_FIRST = re.compile(r'slice::<impl \[T\]>::split_first$')
+_LEN_NAME = 'core::slice::<impl [T]>::len'
+_INDEX_NAME = '<[T] as std::ops::Index<I>>::index'
+
+
+def _is_range_expr(e):
+    e = peel(e, calls=False)
+    return e[0] == 'aggr' and e[1] == 'adt' and re.search(r'ops::Range(To|From|Inclusive|Full|ToInclusive)?::', e[2] or '') is not None
+
+
 def mk_try(x):
     """success payload of `?` applied to x; sees through Ok(..) constructions and phis of them"""
+    # slice.get(i) hands out &slice[i]; slice.get(range) hands out &slice[range]
+    if x[0] == 'call' and len(x[2]) == 2 and _SLICE_GET.search(x[1]):
+        if _is_range_expr(x[2][1]):
+            return ('call', _INDEX_NAME, (x[2][0], x[2][1]), x[3] if len(x) > 3 else None)
+        return ('idx', peel(x[2][0], calls=False), x[2][1])
     if x[0] == 'call' and len(x[2]) == 2 and re.search(r'num::<impl (u\d+|usize)>::checked_sub$', x[1]):
         return ('bin', 'Sub', x[2][0], x[2][1])   # the Some payload of a.checked_sub(b) is a - b
     ad = _adapter(x)
@@ -1138,6 +1175,16 @@ def mk_field(e, name):
         # `match x { Ok(v) => v, .. }` and `x?` name the same value
         if e[2] in ('Ok', 'Some') and name == '0':
             return mk_try(inner)
+    if k == 'try':
+        # slice.split_first() = Some((&s[0], &s[1..]))
+        sf = peel(e[1], calls=False)
+        if sf[0] == 'call' and sf[2] and _SPLIT_FIRST.search(sf[1]):
+            base = peel(sf[2][0], calls=False)
+            if name == '0':
+                return ('idx', base, ('int', 0, 'usize'))
+            if name == '1':
+                rng = ('aggr', 'adt', 'std::ops::RangeFrom::RangeFrom', (('start', ('int', 1, 'usize')),))
+                return ('call', _INDEX_NAME, (sf[2][0], rng), None)
     if k == 'phi':
         alts = [mk_field(x, name) for x in e[1]]
         alts = [a for a in alts if a != ('never',)]
@@ -1303,8 +1350,12 @@ _KINDS = {'never', 'int', 'bool', 'str', 'bytes', 'unit', 'const', 'named', 'fn'
 
 # ------------------------------------------------------------------------------------------
 
+_CUR_PROG = [None]
+
+
 class Program:
     def __init__(self, facts):
+        _CUR_PROG[0] = self
         known = load_known_functions()
         self.type_renames = detect_adt_renames(facts)
         facts = apply_renames(facts, self.type_renames)
@@ -1318,6 +1369,16 @@ class Program:
         raw_by_path = {r['path']: r for r in facts['bodies']}
         raw_by_path, spliced = expand_combinators(raw_by_path)
         merged, used = inline_helpers(raw_by_path, known)
+        # a generic helper that takes a callable only shows what it calls once it sits in its caller: alternate the
+        # two passes until nothing changes (bounded)
+        for _ in range(3):
+            again, spliced2 = expand_combinators(merged)
+            if all(again[k] is merged[k] for k in merged):
+                break
+            spliced |= spliced2
+            merged, used2 = inline_helpers(again, known)
+            used |= used2
+        merged = unroll_all(merged)
         merged = thread_all(merged)
         self.inlined_helpers = sorted(used)
         self.spliced_closures = sorted(spliced)
@@ -1788,6 +1849,14 @@ def canon(e, keep_casts=True, _d=0, labels=None):
     if k == 'try':
         c = peel(e[1], calls=False, tries=False)
         if c[0] == 'call' and method_name(c[1]) == 'next' and c[2] and 'Iterator' in c[1]:
+            # an element of I.map(f) is f applied to an element of I
+            it = peel(c[2][0])
+            if it[0] == 'call' and method_name(it[1]) == 'map' and 'Iterator' in it[1] and len(it[2]) == 2 and _CUR_PROG[0] is not None and d < 40:
+                clo = peel(it[2][1])
+                if clo[0] == 'aggr' and clo[1] == 'closure' and clo[2] in _CUR_PROG[0].bodies:
+                    inner = mk_try(('call', c[1], (it[2][0],), c[3] if len(c) > 3 else None))
+                    r = subst(_CUR_PROG[0].bodies[clo[2]].ret_expr(), {1: clo, 2: inner})
+                    return canon(r, keep_casts, d + 1)
             return 'each(%s)' % canon(c[2][0], keep_casts, d)
         return canon(e[1], keep_casts, d) + '?'
     if k == 'field':
@@ -2275,7 +2344,7 @@ def _is_try_branch(t):
     return f.get('k') == 'const' and 'fn' in f and f['fn']['path'].endswith('Try::branch')
 
 
-def thread_known_variants(raw, max_chain=8, max_rounds=40):
+def thread_known_variants(raw, max_chain=16, max_rounds=40):
     blocks = raw['blocks']
     changed_any = False
     for _ in range(max_rounds):
@@ -2311,6 +2380,7 @@ def thread_known_variants(raw, max_chain=8, max_rounds=40):
             chain = []
             cur = P['term']['target']
             resolved = None
+            last_res = 0
             kn = dict(known)
             new_stmts_per_block = []
             while len(chain) < max_chain:
@@ -2328,6 +2398,13 @@ def thread_known_variants(raw, max_chain=8, max_rounds=40):
                     pl = s['place']
                     if rv['k'] == 'use' and rv['op'].get('k') in ('move', 'copy') and not rv['op']['place']['p'] and rv['op']['place']['l'] in kn and not pl['p']:
                         kn[pl['l']] = kn[rv['op']['place']['l']]
+                    elif rv['k'] == 'use' and rv['op'].get('k') in ('move', 'copy') and not pl['p'] and len(rv['op']['place']['p']) == 2 and \
+                            rv['op']['place']['p'][0].get('k') == 'downcast' and rv['op']['place']['p'][1].get('k') == 'field' and \
+                            rv['op']['place']['l'] in kn and kn[rv['op']['place']['l']][0] == rv['op']['place']['p'][0].get('variant') and \
+                            kn[rv['op']['place']['l']][1] is not None and _plain_local(kn[rv['op']['place']['l']][1]) and \
+                            kn[rv['op']['place']['l']][1]['place']['l'] in kn:
+                        # x = (r as Ok).0 where r = Ok(move s) and s is itself a freshly built Some(..)/None/Ok(..)
+                        kn[pl['l']] = kn[kn[rv['op']['place']['l']][1]['place']['l']]
                     elif rv['k'] == 'discr' and not rv['place']['p'] and rv['place']['l'] in kn and not pl['p']:
                         discr_of[pl['l']] = _VARIANT_INDEX[kn[rv['place']['l']][0]]
                     elif not pl['p']:
@@ -2378,9 +2455,14 @@ def thread_known_variants(raw, max_chain=8, max_rounds=40):
                         tgt = t['otherwise']
                     chain.append((cur, stmts, tgt))
                     resolved = tgt
+                    last_res = len(chain)
+                    # keep walking: a nested value (Ok(Some(x))) is tested again further on
+                    cur = tgt
+                    continue
                 break
             if resolved is None or not chain:
                 continue
+            chain = chain[:last_res]
             # materialise private copies of the chain for P
             first_new = len(blocks)
             for ci, item in enumerate(chain):
@@ -2982,6 +3064,88 @@ def _expand_transpose(raw, bi):
     return True
 
 
+_FN_TRAIT_CALL = re.compile(r'^std::ops::(Fn::call|FnMut::call_mut|FnOnce::call_once)$')
+
+
+def _single_assign_def(raw, l):
+    d = None
+    for blk in raw['blocks']:
+        for st in blk['stmts']:
+            if st['k'] == 'assign' and not st['place']['p'] and st['place']['l'] == l:
+                if d is not None:
+                    return None
+                d = st
+        t = blk['term']
+        if t and t['k'] == 'call' and not t['dest']['p'] and t['dest']['l'] == l:
+            return None
+    return d
+
+
+def _untuple_args(raw, op):
+    """operands of the tuple `op` was built from (the rust-call ABI packs closure arguments in a tuple)"""
+    if not _plain_local(op):
+        return None
+    st = _single_assign_def(raw, op['place']['l'])
+    if st is None or st['rv']['k'] != 'aggr' or st['rv'].get('akind') != 'tuple':
+        return None
+    return list(st['rv']['ops'])
+
+
+def _callee_value(raw, op, depth=6):
+    """what a callable operand is: ('closure', local holding it, path) or ('fn', const operand) — following
+    references and whole-local copies"""
+    for _ in range(depth):
+        if op.get('k') == 'const' and 'fn' in op:
+            return ('fn', op)
+        if not _plain_local(op):
+            return None
+        st = _single_assign_def(raw, op['place']['l'])
+        if st is None:
+            return None
+        rv = st['rv']
+        if rv['k'] == 'aggr' and rv.get('akind') == 'closure':
+            return ('closure', op['place']['l'], rv.get('closure'))
+        if rv['k'] == 'ref' and not rv['place']['p']:
+            op = {'k': 'copy', 'place': rv['place']}
+            continue
+        if rv['k'] == 'use':
+            op = rv['op']
+            continue
+        if rv['k'] == 'cast' and str(rv.get('kind', '')).startswith('PointerCoercion'):
+            op = rv['op']
+            continue
+        return None
+    return None
+
+
+def _expand_direct_call(raw, raw_by_path, bi, used):
+    """`f(args)` where f is a closure created in this body (or, after a generic helper was inlined, a function item
+    passed to it): the call goes through Fn/FnMut/FnOnce; splice the closure body or call the function directly"""
+    blk = raw['blocks'][bi]
+    t = blk['term']
+    span = t.get('span', {})
+    if len(t['args']) != 2 or t.get('target') is None:
+        return False
+    cv = _callee_value(raw, t['args'][0])
+    ops = _untuple_args(raw, t['args'][1])
+    if cv is None or ops is None:
+        return False
+    if cv[0] == 'fn':
+        fop = cv[1]
+        blk['term'] = dict(t, func=fop, args=ops)
+        return True
+    _, clo_local, clo_path = cv
+    if clo_path not in raw_by_path:
+        return False
+    B = _Builder(raw)
+    e = _emit_closure_call(B, raw_by_path, clo_local, clo_path, ops, t['dest'], t['target'], span)
+    if e is None:
+        return False
+    blk['term'] = {'k': 'goto', 'target': e, 'span': span}
+    used.add(clo_path)
+    return True
+
+
 def expand_combinators(raw_by_path):
     """returns (new_raw_by_path, closure paths that were spliced into their creators)"""
     out = {}
@@ -2996,7 +3160,7 @@ def expand_combinators(raw_by_path):
                     continue
                 fp = _fn_path(t)
                 kind = _ITER_CONSUMERS.get(fp) or _OPT_COMBINATORS.get(fp) or ('and_modify' if fp and _ENTRY_MODIFY.match(fp) else None) or \
-                    ('transpose' if fp == _TRANSPOSE else None)
+                    ('transpose' if fp == _TRANSPOSE else None) or ('direct' if fp and _FN_TRAIT_CALL.match(fp) else None)
                 if kind:
                     hit = (bi, kind)
                     if cur is raw:
@@ -3007,6 +3171,8 @@ def expand_combinators(raw_by_path):
                             ok = _expand_entry_modify(cur, raw_by_path, bi, used)
                         elif kind == 'transpose':
                             ok = _expand_transpose(cur, bi)
+                        elif kind == 'direct':
+                            ok = _expand_direct_call(cur, raw_by_path, bi, used)
                         else:
                             ok = _expand_one(cur, raw_by_path, bi, kind, used)
                     except (KeyError, IndexError):
@@ -3151,3 +3317,247 @@ def thread_bool_constants(raw, max_chain=6, max_rounds=40):
     if changed_any:
         _prune_unreachable(raw)
     return changed_any
+
+
+# ------------------------------------------------------------------------------------------
+# Unrolling of loops over literal arrays:  for x in [a, b, c] { body }  ==  { body[x:=a]; body[x:=b]; body[x:=c] }.
+# The trip count and every element are compile-time facts, so the unrolled CFG is the same program; rules then see
+# "flush w1; flush w2; .." whether it was written as four statements or as a loop over an array of writers, and a
+# rename loop over ["blocks", "transactions", ..] as four renames with constant names.
+
+def _rename_locals(x, ren):
+    if isinstance(x, dict):
+        out = {}
+        for k, v in x.items():
+            out[k] = _rename_locals(v, ren)
+        if 'l' in out and 'p' in out and isinstance(out['l'], int) and out['l'] in ren:
+            out['l'] = ren[out['l']]
+        if out.get('k') == 'index' and isinstance(out.get('local'), int) and out['local'] in ren:
+            out['local'] = ren[out['local']]
+        return out
+    if isinstance(x, list):
+        return [_rename_locals(v, ren) for v in x]
+    return x
+
+
+def _retarget(t, f):
+    t = dict(t)
+    for key in ('target', 'otherwise'):
+        if isinstance(t.get(key), int):
+            t[key] = f(t[key])
+    if t.get('k') == 'switch':
+        t['arms'] = [[v, f(bb)] for v, bb in t['arms']]
+    return t
+
+
+def _const_str_array(val):
+    """string constants of a constant `[&str; N]` (or a reference to one) as operands, else None"""
+    if not isinstance(val, dict) or not val.get('has_ptrs'):
+        return None
+    ptrs = val.get('ptrs', [])
+    nbytes = len(val.get('alloc_bytes', []))
+    if len(ptrs) == 1 and nbytes == 8:
+        return _const_str_array(ptrs[0].get('to'))
+    if ptrs and nbytes == 16 * len(ptrs) and all(p.get('at') == 16 * i for i, p in enumerate(ptrs)):
+        out = []
+        for p in ptrs:
+            to = p.get('to') or {}
+            if to.get('has_ptrs') or 'alloc_bytes' not in to:
+                return None
+            try:
+                out.append({'k': 'const', 'ty': '&str', 'val': {'str': bytes(to['alloc_bytes']).decode('utf-8')}})
+            except UnicodeDecodeError:
+                return None
+        return out
+    return None
+
+
+def _array_source(raw, op, depth=8):
+    """(array local, by_ref, element operands) when `op` is (a reference to / a move of) a local built by one array
+    aggregate, or a constant array of string literals"""
+    by_ref = False
+    for _ in range(depth):
+        if op.get('k') == 'const':
+            ops = _const_str_array(op.get('val'))
+            if ops is None and 'promoted' in op and op['promoted'] < len(raw.get('promoted', [])):
+                # &CONST_ARRAY is a promoted constant whose body loads the named constant
+                for pb in raw['promoted'][op['promoted']]['blocks']:
+                    for st in pb['stmts']:
+                        if st['k'] == 'assign' and st['rv']['k'] == 'use' and st['rv']['op'].get('k') == 'const':
+                            ops = ops or _const_str_array(st['rv']['op'].get('val'))
+            return (None, False, ops) if ops is not None else None
+        if not _plain_local(op):
+            return None
+        st = _single_assign_def(raw, op['place']['l'])
+        if st is None:
+            return None
+        rv = st['rv']
+        if rv['k'] == 'aggr' and rv.get('akind') == 'array':
+            return op['place']['l'], by_ref, rv['ops']
+        if rv['k'] == 'use':
+            op = rv['op']
+            continue
+        if rv['k'] == 'ref':
+            pl = rv['place']
+            if pl['p'] == [] or pl['p'] == [{'k': 'deref'}]:
+                by_ref = by_ref or pl['p'] == []
+                op = {'k': 'copy', 'place': {'l': pl['l'], 'p': [], 'ty': ''}}
+                continue
+            return None
+        if rv['k'] == 'cast' and str(rv.get('kind', '')).startswith('PointerCoercion'):
+            op = rv['op']
+            continue
+        return None
+    return None
+
+
+def unroll_array_loops(raw, max_len=8, max_loops=6):
+    changed_any = False
+    for _round in range(max_loops):
+        tb = Body(None, raw)
+        cdefs = _call_defs(raw)
+        done = False
+        for h, lb, back in sorted(tb.loops(), key=lambda x: len(x[1])):
+            blocks = raw['blocks']
+            ht = blocks[h]['term']
+            if ht['k'] != 'call' or _fn_path(ht) != 'std::iter::Iterator::next' or ht['dest']['p'] or ht.get('target') not in lb:
+                continue
+            h2 = ht['target']
+            t2 = blocks[h2]['term']
+            if t2['k'] != 'switch' or len(t2['arms']) != 2 or len(blocks[h2]['stmts']) == 0:
+                continue
+            arms = {int(v): bb for v, bb in t2['arms']}
+            if set(arms) != {0, 1} or arms[0] in lb or arms[1] not in lb:
+                continue
+            exitb, bodyb = arms[0], arms[1]
+            n_local = ht['dest']['l']
+            # the iterator local behind `next(&mut *&mut it)`
+            op = ht['args'][0]
+            it_local = None
+            for _ in range(4):
+                if not _plain_local(op):
+                    break
+                st = _single_assign_def(raw, op['place']['l'])
+                if st is None or st['rv']['k'] != 'ref':
+                    break
+                pl = st['rv']['place']
+                if pl['p'] == []:
+                    it_local = pl['l']
+                    break
+                if pl['p'] == [{'k': 'deref'}]:
+                    op = {'k': 'copy', 'place': {'l': pl['l'], 'p': [], 'ty': ''}}
+                    continue
+                break
+            if it_local is None:
+                continue
+            src = {'k': 'copy', 'place': {'l': it_local, 'p': [], 'ty': ''}}
+            arr = None
+            for _ in range(6):
+                l = src['place']['l']
+                if l in cdefs:
+                    cbi, ct = cdefs[l]
+                    fp = _fn_path(ct) or ''
+                    if (fp.endswith('IntoIterator::into_iter') or fp.endswith('::iter')) and len(ct['args']) == 1:
+                        arr = _array_source(raw, ct['args'][0])
+                    break
+                st = _single_assign_def(raw, l)
+                if st is not None and st['rv']['k'] == 'ref' and st['rv']['place']['p'] == []:
+                    # `(&mut it).try_for_each(..)`: the consumer was handed a reference to the iterator
+                    src = {'k': 'copy', 'place': {'l': st['rv']['place']['l'], 'p': [], 'ty': ''}}
+                    continue
+                if st is None or st['rv']['k'] != 'use' or not _plain_local(st['rv']['op']):
+                    break
+                src = st['rv']['op']
+            if arr is None:
+                continue
+            arr_local, by_ref, ops = arr
+            n = len(ops)
+            if n > max_len:
+                continue
+            # loop-local temporaries: defined only inside the loop and never used outside it
+            inside = set(lb)
+            defs_in, defs_out = set(), set()
+            for bi, B in enumerate(blocks):
+                tgt = defs_in if bi in inside else defs_out
+                for st in B['stmts']:
+                    if st['k'] == 'assign' and not st['place']['p']:
+                        tgt.add(st['place']['l'])
+                tt = B['term']
+                if tt and tt['k'] == 'call' and not tt['dest']['p']:
+                    tgt.add(tt['dest']['l'])
+            cand = defs_in - defs_out - set(range(0, raw['arg_count'] + 1))
+            outside_json = [B for bi, B in enumerate(blocks) if bi not in inside]
+            loop_locals = set(l for l in cand if not _uses_local(outside_json, {l}))
+            span = ht.get('span', {})
+            item_ty = ''
+            B_ = _Builder(raw)
+
+            def some_stmt(k, n_l):
+                if by_ref:
+                    tmp = B_.local('&' + item_ty)
+                    st1 = B_.assign(B_.place(tmp), {'k': 'ref', 'mut': False, 'place': {'l': arr_local, 'p': [{'k': 'cindex', 'offset': k, 'min_length': n, 'from_end': False}], 'ty': ''}}, span)
+                    item = B_.mv(tmp)
+                    pre = [st1]
+                else:
+                    item = _copy.deepcopy(ops[k])
+                    pre = []
+                return pre + [B_.assign(B_.place(n_l), {'k': 'aggr', 'akind': 'adt', 'adt': 'std::option::Option', 'adt_full': '', 'variant': 'Some', 'fields': ['0'], 'ops': [item]}, span)]
+            order = sorted(lb)
+            # copies 1..n-1 (copy 0 is the original blocks)
+            headers = {0: h}
+            maps = {0: {b: b for b in order}}
+            rens = {0: {}}
+            for k in range(1, n):
+                ren = {}
+                for l in sorted(loop_locals):
+                    raw['locals'].append(dict(raw['locals'][l]))
+                    ren[l] = len(raw['locals']) - 1
+                base = len(blocks)
+                maps[k] = {b: base + i for i, b in enumerate(order)}
+                rens[k] = ren
+                headers[k] = maps[k][h]
+                for b in order:
+                    blocks.append(_rename_locals(_copy.deepcopy(blocks[b]), ren))
+            fin = len(blocks)
+            blocks.append({'stmts': [], 'term': {'k': 'goto', 'target': exitb, 'span': span}})
+            for k in range(n):
+                mp = maps[k]
+                nxt_header = headers[k + 1] if k + 1 < n else fin
+                for b in order:
+                    nb = blocks[mp[b]]
+                    if b == h:
+                        nl = rens[k].get(n_local, n_local)
+                        nb['stmts'] = nb['stmts'] + some_stmt(k, nl)
+                        nb['term'] = {'k': 'goto', 'target': mp[h2], 'span': span}
+                    elif b == h2:
+                        nb['term'] = {'k': 'goto', 'target': mp[bodyb], 'span': span}
+                    else:
+                        nb['term'] = _retarget(nb['term'], lambda x, mp=mp, nh=nxt_header: nh if x == h else mp.get(x, x))
+            if n == 0:
+                blocks[h]['term'] = {'k': 'goto', 'target': exitb, 'span': span}
+            done = True
+            changed_any = True
+            break
+        if not done:
+            break
+    if changed_any:
+        _prune_unreachable(raw)
+    return changed_any
+
+
+def unroll_all(raw_by_path):
+    out = {}
+    for path, raw in raw_by_path.items():
+        has_array = any(st['k'] == 'assign' and st['rv']['k'] == 'aggr' and st['rv'].get('akind') == 'array'
+                        for b in raw['blocks'] for st in b['stmts'])
+        has_loop_call = any(b['term'] and b['term']['k'] == 'call' and _fn_path(b['term']) == 'std::iter::Iterator::next' for b in raw['blocks'])
+        if has_loop_call and (has_array or '"has_ptrs": true' in json.dumps(raw['blocks']) or '"has_ptrs": true' in json.dumps(raw.get('promoted', []))):
+            cur = _copy.deepcopy(raw)
+            try:
+                if unroll_array_loops(cur):
+                    out[path] = cur
+                    continue
+            except (KeyError, IndexError, TypeError):
+                pass
+        out[path] = raw
+    return out
